@@ -70,7 +70,9 @@ var names = []string{"ann", "bob", "cy", "dee", "eve", "flo", "gus", "hal"}
 
 func genTable(r *hutil.Rng, name string) *Table {
 	t := &Table{Name: name}
-	switch r.Intn(14) {
+	switch r.Intn(16) {
+	case 14, 15:
+		t.Keys = []Col{{Name: "id", Typ: "BIGINT", AutoInc: true}}
 	case 12, 13:
 		t.Keys = []Col{{Name: "k1", Typ: "VARCHAR"}, {Name: "k2", Typ: "VARCHAR"}}
 	case 10: // consecutive ids no float64 can tell apart
@@ -185,6 +187,9 @@ func nearVal(r *hutil.Rng, c Col, v Val) (Val, bool) {
 	case v.K == "time" && c.Typ == "DATETIME":
 		t, _ := parseTimeAny(v.V)
 		return vTime(t.Add(time.Microsecond)), true
+	case v.K == "time" && c.Typ == "TIMESTAMP":
+		t, _ := parseTimeAny(v.V)
+		return vTime(t.Add(time.Millisecond)), true
 	case v.K == "bytes":
 		return Val{K: "bytes", V: v.V + "00"}, len(v.V) < 30
 	case v.K == "int" && c.Typ == "BIGINT":
@@ -403,6 +408,9 @@ func (g *genCtx) genStmt(t *Table, own func(i int) bool, explicit bool) Stmt {
 		return row
 	}
 	k := r.Intn(10)
+	if auto && r.Chance(1, 3) {
+		k = 0 // INSERT: generated keys
+	}
 	if len(t.Keys) == 2 && t.Keys[0].Typ == "VARCHAR" && r.Chance(1, 2) {
 		k = 5 // UPDATE: images holding several rows with composite character keys
 	}
@@ -412,7 +420,7 @@ func (g *genCtx) genStmt(t *Table, own func(i int) bool, explicit bool) Stmt {
 		withKey := !(auto && r.Chance(2, 3))
 		n := 1
 		params := r.Chance(1, 2)
-		if r.Chance(1, 3) {
+		if r.Chance(1, 3) || (auto && !withKey && r.Chance(1, 2)) {
 			// multi-row: literals only (bound key parameters are the region insert.multirow.params); the generated-key
 			// form (auto-increment key left out) is allowed
 			n, params = 2+r.Intn(2), false
